@@ -4,6 +4,7 @@ import (
 	"encoding/binary"
 	"fmt"
 	"reflect"
+	"sort"
 )
 
 // Dom classifies a wire field value against the property's domain.
@@ -354,60 +355,73 @@ func valueEqual(key string, want, got any) bool {
 	return reflect.DeepEqual(want, got)
 }
 
-// Judge compares an observation with the expectation; "" means conforming.
-func Judge(e Expect, o Observed) string {
+// Verdict of Judge: Class == "" means conforming.
+type Verdict struct {
+	Class  string // stable class name for violation keys
+	Field  string // result field concerned, if any
+	Detail string
+}
+
+// Judge compares an observation with the expectation.
+func Judge(e Expect, o Observed) Verdict {
 	failed := o.Err != nil
 	switch e.Sentinel {
 	case "free":
-		return ""
+		return Verdict{}
 	case "error":
 		if !failed {
-			return "sentinel reply must make the call fail, but it returned a result"
+			return Verdict{"sentinel-not-an-error", "", "sentinel reply must make the call fail, but it returned a result"}
 		}
-		return ""
+		return Verdict{}
 	case "nil":
 		if failed {
 			if e.AnyOut {
-				return ""
+				return Verdict{}
 			}
-			return fmt.Sprintf("sentinel reply must yield 'no value' without error, got error %v", o.Err)
+			return Verdict{"sentinel-rejected", "", fmt.Sprintf("sentinel reply must yield 'no value' without error, got error %v", o.Err)}
 		}
 		if !o.Nil {
-			return "sentinel reply must yield 'no value', got a value"
+			return Verdict{"sentinel-ignored", "", "sentinel reply must yield 'no value', got a value"}
 		}
-		return ""
+		return Verdict{}
 	case "nil-or-error":
 		if failed || o.Nil {
-			return ""
+			return Verdict{}
 		}
-		return "sentinel reply must yield 'no value' or an error, got a value"
+		return Verdict{"sentinel-ignored", "", "sentinel reply must yield 'no value' or an error, got a value"}
 	}
 	if failed {
 		if e.AnyOut {
-			return ""
+			return Verdict{}
 		}
-		return fmt.Sprintf("well-formed in-domain reply rejected: %v", o.Err)
+		return Verdict{"rejected-valid-reply", "", fmt.Sprintf("well-formed in-domain reply rejected: %v", o.Err)}
 	}
 	if o.Nil {
-		return "well-formed in-domain reply yielded no value"
+		return Verdict{"no-value-for-valid-reply", "", "well-formed in-domain reply yielded no value"}
 	}
-	for k, want := range e.Fields {
+	keys := make([]string, 0, len(e.Fields))
+	for k := range e.Fields {
+		keys = append(keys, k)
+	}
+	sort.Strings(keys)
+	for _, k := range keys {
+		want := e.Fields[k]
 		d := e.Doms[k]
 		if d == Free {
 			continue
 		}
 		got, ok := o.Fields[k]
 		if !ok {
-			return "harness: observation lacks result field " + k
+			return Verdict{"harness-missing-field", k, "harness: observation lacks result field " + k}
 		}
 		if !valueEqual(k, want, got) {
 			if d == Out {
-				return fmt.Sprintf("out-of-domain reply field %s reported as %v (want the zero value or a failed call)", k, got)
+				return Verdict{"out-of-domain-reported", k, fmt.Sprintf("out-of-domain reply field %s reported as %v (want the zero value or a failed call)", k, got)}
 			}
-			return fmt.Sprintf("result field %s = %v, protocol decoding is %v", k, got, want)
+			return Verdict{"wrong-value", k, fmt.Sprintf("result field %s = %v, protocol decoding is %v", k, got, want)}
 		}
 	}
-	return ""
+	return Verdict{}
 }
 
 // DaysInMonth is the proleptic Gregorian month length (0 for an invalid month).
